@@ -1,5 +1,6 @@
 """C09 - the trap-space solver returns exactly the requested trap spaces."""
 import random
+import re
 
 import families
 import oracle
@@ -15,7 +16,24 @@ RULE = "non-trivial = the reference answer of the trappist call or of the reduce
 CASE_TIMEOUT = 60.0
 
 
+def sequence_cases(seed, tier):
+    """Call sequences on ONE BooleanNetwork object with in-place edits of an update function between the calls."""
+    first, edits = families.EDIT_FIRST
+    allq = [["query", {"problem": p, "reverse": False, "ensure": {}, "avoid": [], "sources": "default", "source_list": None, "limit": None}] for p in ("min", "max", "fix")]
+    yield {"kind": "sequence", "net": "edit_first", "bnet": first, "steps": allq + [["edit", v, e] for v, e in edits] + allq}
+    for name, bnet in families.network_family(seed, tier, hand_max_vars=7, include_2var=16 if tier == "quick" else 64):
+        if len(families.variables(bnet)) < 2:
+            continue
+        k = 8 if name in families.HAND else (3 if tier == "quick" else 6)
+        for steps in families.edit_sequences(seed, name, bnet, k):
+            yield {"kind": "sequence", "net": name, "bnet": bnet, "steps": steps}
+
+
 def cases(seed, tier):
+    yield from families.interleave((sequence_cases(seed, tier), 1), (single_cases(seed, tier), 8))
+
+
+def single_cases(seed, tier):
     for name, bnet in families.network_family(seed, tier, hand_max_vars=7, include_2var=64 if tier == "quick" else 256):
         names = families.variables(bnet)
         for rnd in range(6 if tier == "quick" else 14):
@@ -38,7 +56,122 @@ def cases(seed, tier):
                    "limit": rng.choice([None, None, None, 0, 1, 2, 3]), "retained": retained, "rlimit": rng.choice([None, None, 0, 1, 2])}
 
 
+def trappist_reference(net, q):
+    """(reference answer as a list of spaces or None if the call is outside the contract, optimize_source_variables argument)."""
+    problem, rev, ensure, avoid = q["problem"], q["reverse"], q["ensure"], q["avoid"]
+    true_sources = net.source_vars()
+    if q["sources"] == "default":
+        src_arg, must = None, true_sources
+    elif q["sources"] == "none":
+        src_arg, must = [], []
+    elif q["sources"] == "true":
+        src_arg, must = list(true_sources), true_sources
+    else:
+        src_arg = [v for v in q["source_list"] if v in net.names]
+        must = src_arg
+    n = net.n
+    if n == 0 or (problem == "max" and len(ensure) >= n):
+        return None, src_arg
+    fam = net.trap_family(reverse=rev, ensure=ensure, avoid=avoid, must_fix=must if problem == "max" else (), nontrivial=(problem == "max"))
+    if problem == "min":
+        ref = minimal(fam)
+    elif problem == "max":
+        ref = maximal(fam)
+    else:
+        ref = [t for t in fam if len(t) == n]
+    return ref, src_arg
+
+
+def trappist_call(arg, q, src_arg):
+    from biobalm.trappist_core import trappist
+
+    return trappist(arg, problem=q["problem"], reverse_time=q["reverse"], solution_limit=q["limit"], ensure_subspace=dict(q["ensure"]),
+                    avoid_subspaces=[dict(a) for a in q["avoid"]], optimize_source_variables=src_arg)
+
+
+def answer_failures(res, ref, q, what):
+    out = []
+    problem = q["problem"]
+    o, e = [skey(t) for t in res], sorted(skey(t) for t in ref)
+    if len(set(o)) != len(o):
+        out.append(fail("trappist_duplicate", "without duplicates", what, observed=o))
+    if q["limit"] is None:
+        if sorted(o) != e:
+            miss = [t for t in e if t not in o]
+            kind = "trappist_omission" if miss else "trappist_wrong_space"
+            out.append(fail(kind, f"exactly the requested ({problem}) trap spaces, without omissions", what, observed=sorted(o), expected=e))
+    else:
+        if any(t not in e for t in o):
+            out.append(fail("trappist_wrong_space", "a solution limit only truncates the list", what, observed=sorted(o), expected=e))
+        if len(o) != min(max(q["limit"], 0), len(e)):
+            out.append(fail("trappist_limit_count", "a solution limit only truncates the list (min(limit, total) solutions)", what, observed=len(o),
+                            expected=min(max(q["limit"], 0), len(e))))
+    return out
+
+
+def trappist_compare(arg, net, q, via):
+    """Run one trappist call on `arg` and compare with the brute-force answer for `net`: (failures, result, reference)."""
+    ref, src_arg = trappist_reference(net, q)
+    if ref is None:
+        return [], [], []
+    res = trappist_call(arg, q, src_arg)
+    what = f"trappist({via}, problem={q['problem']}, reverse_time={q['reverse']}, ensure={q['ensure']}, avoid={q['avoid']}, sources={src_arg}, limit={q['limit']})"
+    return answer_failures(res, ref, q, what), res, ref
+
+
+def check_sequence(case):
+    """One BooleanNetwork object, queried and edited in place (set_update_function; regulations are declared first where the new function has
+    new inputs).  Every answer is compared with brute force on the CURRENT network and with the answer for a freshly parsed copy of it."""
+    import_biobalm()
+    from biodivine_aeon import BooleanNetwork
+
+    text = case["bnet"]
+    bn = BooleanNetwork.from_bnet(text)
+    net = oracle.Net.from_bnet(text)
+    info = net_info(net)
+    info["ref_trappist"] = info["ref_deadlocks"] = 0
+    edits = []
+    answers = []  # (step index, edits so far, query, network text, reference network, failures, result) in call order
+    # first the whole sequence on the one object (no other solver call in between: a call on another object could refresh hidden state)
+    for k, step in enumerate(case["steps"]):
+        if step[0] == "edit":
+            _, v, e = step
+            text = families.replace_rule(text, v, e)
+            have = {bn.get_variable_name(x) for x in bn.predecessors(v)}
+            for w in sorted(set(re.findall(r"[A-Za-z_][A-Za-z0-9_]*", e)) - {"true", "false"} - have):
+                bn.ensure_regulation({"source": w, "target": v, "essential": False, "sign": None})
+            bn.set_update_function(v, e)
+            net = oracle.Net.from_bnet(text)
+            # harness self-check: the edited object and the edited text are the same network
+            live = oracle.Net.from_bn(bn)
+            assert live.names == net.names and live.on == net.on, "harness: in-place edit and text edit disagree"
+            edits.append([v, e])
+            continue
+        fs, res, ref = trappist_compare(bn, net, step[1], "same object")
+        info["ref_trappist"] += len(ref)
+        answers.append((k, list(edits), step[1], text, net, fs, res))
+    # then the same queries, each on a freshly parsed copy of the network as it was at that point of the sequence
+    out = []
+    for k, eds, q, txt, ref_net, fs, res in answers:
+        fresh_fs, fresh_res, _ = trappist_compare(BooleanNetwork.from_bnet(txt), ref_net, q, "fresh copy")
+        where = f"step {k} after in-place edits {eds}: "
+        if fs and not fresh_fs and eds:
+            # the answer is wrong for the object that was edited in place and right for an equal, freshly parsed network
+            f = fs[0]
+            out.append(fail("trappist_stale_after_inplace_edit", "the answer describes the network as it is when the call is made (exactly the requested trap spaces of the given network)",
+                            where + f["detail"] + f"; a freshly parsed copy of the same network gives {sorted(skey(t) for t in fresh_res)}", observed=f["observed"], expected=f["expected"]))
+        else:
+            for f in fs + fresh_fs:
+                f["detail"] = where + f["detail"]
+            out += fs + fresh_fs
+        if out:
+            break
+    return out, info
+
+
 def check_with_info(case):
+    if case.get("kind") == "sequence":
+        return check_sequence(case)
     import_biobalm()
     from biodivine_aeon import BooleanNetwork
     from biobalm.petri_net_translation import network_to_petrinet, restrict_petrinet_to_subspace
@@ -58,44 +191,11 @@ def check_with_info(case):
         net = full.restrict(case["restrict"])
     out = []
     n = net.n
-    problem, rev, ensure, avoid = case["problem"], case["reverse"], case["ensure"], case["avoid"]
-    true_sources = net.source_vars()
-    if case["sources"] == "default":
-        src_arg, must = None, true_sources
-    elif case["sources"] == "none":
-        src_arg, must = [], []
-    elif case["sources"] == "true":
-        src_arg, must = list(true_sources), true_sources
-    else:
-        src_arg = [v for v in case["source_list"] if v in net.names]
-        must = src_arg
+    ensure, avoid = case["ensure"], case["avoid"]
     info["ref_trappist"] = info["ref_deadlocks"] = 0
-    if n > 0 and not (problem == "max" and len(ensure) >= n):
-        fam = net.trap_family(reverse=rev, ensure=ensure, avoid=avoid, must_fix=must if problem == "max" else (), nontrivial=(problem == "max"))
-        if problem == "min":
-            ref = minimal(fam)
-        elif problem == "max":
-            ref = maximal(fam)
-        else:
-            ref = [t for t in fam if len(t) == n]
-        info["ref_trappist"] = len(ref)
-        res = trappist(arg, problem=problem, reverse_time=rev, solution_limit=case["limit"], ensure_subspace=dict(ensure), avoid_subspaces=[dict(a) for a in avoid],
-                       optimize_source_variables=src_arg)
-        o, e = [skey(t) for t in res], sorted(skey(t) for t in ref)
-        what = f"trappist({case['via']}, problem={problem}, reverse_time={rev}, ensure={ensure}, avoid={avoid}, sources={src_arg}, limit={case['limit']})"
-        if len(set(o)) != len(o):
-            out.append(fail("trappist_duplicate", "without duplicates", what, observed=o))
-        if case["limit"] is None:
-            if sorted(o) != e:
-                miss = [t for t in e if t not in o]
-                kind = "trappist_omission" if miss else "trappist_wrong_space"
-                out.append(fail(kind, f"exactly the requested ({problem}) trap spaces, without omissions", what, observed=sorted(o), expected=e))
-        else:
-            if any(t not in e for t in o):
-                out.append(fail("trappist_wrong_space", "a solution limit only truncates the list", what, observed=sorted(o), expected=e))
-            if len(o) != min(max(case["limit"], 0), len(e)):
-                out.append(fail("trappist_limit_count", "a solution limit only truncates the list (min(limit, total) solutions)", what, observed=len(o),
-                                expected=min(max(case["limit"], 0), len(e))))
+    fs, res, ref = trappist_compare(arg, net, case, case["via"])
+    out += fs
+    info["ref_trappist"] = len(ref)
     # reduced STG
     retained = {k: v for k, v in case["retained"].items() if k in net.names}
     ens = {k: v for k, v in ensure.items()}
